@@ -1,4 +1,5 @@
 import BeyondVerif.Model.DateCfg
+import BeyondVerif.Model.DateDbl
 /-!
 Kernel-checked witnesses for C03, with the IERS values of 2015-03-03 / 04 (UT1−UTC = −0.5295713 s and −0.5306080 s,
 TAI−UTC = 35 s).
@@ -100,5 +101,16 @@ a constant TDB term, moves by 12 ticks = 1.2 µs — `_s`, `_offset` and the off
 `changeScale_observed_us`.  On the real `Date` the float noise at the ties of the 0.1-µs UT1−UTC column gives up to 1.49 µs also
 between UT1 and the uniform scales: oracle family `instant-internal`.) -/
 theorem three_roundings_exceed_1us : shift env3 tdb 57084 432000000010 ut1 = some (-12) := by decide
+
+/-- **the day number comes from a double**: `Date(57085, 34.9999997, scale="TAI")` is 0.3 µs *before* 00:00:00 UTC of
+March 4 — the exact-day model gives it the record of March 3, the binary64 computation of `Date.__init__`
+(`Model/DateDbl.lean`: `mjd_utc` rounds up to 57085.0) the record of March 4.  Outside 0.7 µs of UTC midnight the two agree
+(`Props/C03d.lean day_of_double_utc`, `eopForF_record_of_utc_day`). -/
+theorem sub_microsecond_band_differs :
+    ut1Of (mk cfg env2 tai 57085 349999997) = some (-5295713) ∧
+    eopForF cfg env2 tai 57085 (fl (349999997 / 10000000)) = .ok ⟨350000000, -5306080⟩ 57085 (some 57085) ∧
+    eopForF cfg env2 tai 57085 (fl (349999990 / 10000000)) = .ok ⟨350000000, -5295713⟩ 57085 (some 57084) ∧
+    ut1Of (mk cfg env2 tai 57085 349999990) = some (-5295713) := by
+  decide +kernel
 
 end BeyondVerif.C03W
